@@ -5,10 +5,10 @@ package c17
 import (
 	"os"
 	"runtime"
-	"sync/atomic"
-	"time"
 	"strings"
+	"sync/atomic"
 	"testing"
+	"time"
 
 	"verif/vk"
 )
@@ -21,19 +21,24 @@ import (
 func TestMain(m *testing.M) {
 	for _, a := range os.Args[1:] {
 		if strings.HasPrefix(a, "-reindex=") {
-			res := vk.New("C17")
-			sc := res.Scenario("auth-unauthenticated")
-			if ph := os.Getenv(restartEnv); ph != "" {
-				res.Violate(sc, "C17|auth-wrap|unauth-restart|/status/", "an unauthenticated POST .../restart re-executed the server process (config/mode "+ph+")", map[string]any{"part": "auth-restart", "phase": ph})
-			} else {
-				res.EngineError("the test binary was re-executed by RestartProcess outside the unauthenticated pass")
+			// restarted by perkeep: remember why, restore the original arguments and run
+			// everything again (without POSTing restart a second time)
+			restartedBy = os.Getenv(restartEnv)
+			if restartedBy == "" {
+				restartedBy = "(outside the unauthenticated pass)"
 			}
-			res.Write()
-			os.Exit(0)
+			os.Args = append(os.Args[:1], strings.Split(os.Getenv(origArgsEnv), "\x1f")...)
+			break
 		}
 	}
+	os.Setenv(origArgsEnv, strings.Join(os.Args[1:], "\x1f"))
 	os.Exit(m.Run())
 }
+
+const origArgsEnv = "C17_ORIG_ARGS"
+
+// restartedBy is the config/mode whose unauthenticated pass re-executed this process.
+var restartedBy string
 
 // inFlight names what the process is doing (for the watchdog's message).
 var inFlight atomic.Value
@@ -60,6 +65,14 @@ func TestCheck(t *testing.T) {
 		res.Write()
 		os.Exit(0)
 	}()
+	if restartedBy != "" {
+		sc := res.Scenario("auth-unauthenticated")
+		if strings.HasPrefix(restartedBy, "(") {
+			res.EngineError("the test binary was re-executed by RestartProcess %s", restartedBy)
+		} else {
+			res.Violate(sc, "C17|auth-wrap|unauth-restart|/status/", "a POST .../restart without valid credentials re-executed the server process (config/mode "+restartedBy+")", map[string]any{"part": "auth-restart", "phase": restartedBy})
+		}
+	}
 	if rp, ok := vk.ReplayFile(); ok {
 		r, _ := rp["replay"].(map[string]any)
 		switch r["part"] {
@@ -67,6 +80,12 @@ func TestCheck(t *testing.T) {
 			replayShare(res, r)
 		case "auth":
 			replayAuth(res, r)
+		case "auth-restart":
+			ph, _ := r["phase"].(string)
+			cm := strings.SplitN(ph, "/", 2)
+			if len(cm) == 2 {
+				replayAuth(res, map[string]any{"config": cm[0], "mode": cm[1]})
+			}
 		default:
 			res.EngineError("replay: unknown part %v", r["part"])
 		}
@@ -76,10 +95,12 @@ func TestCheck(t *testing.T) {
 	if vk.Thorough() {
 		maxLen = 5
 	}
-	if os.Getenv("C17_ONLY") != "auth" {
-		runShare(res, maxLen)
-	}
+	// the auth part first: it is short, and the share part is the one that may meet the budget
 	if os.Getenv("C17_ONLY") != "share" {
 		runAuth(res)
+	}
+	if os.Getenv("C17_ONLY") != "auth" {
+		inFlight.Store("share chains")
+		runShare(res, maxLen)
 	}
 }
